@@ -130,6 +130,20 @@ def run_real_ctl(case, xexit_as="xexit"):
                 pc.assign_all(name, value=float(op[2]))
             except ValueError:
                 raised = True
+        elif op[0] == "assignd":
+            # assign_all on a DERIVED definition: must raise ValueError before touching anything
+            name = nodes[op[1]]["name"]
+            lean_ops.append(["assign", idx[name], op[2]])
+            try:
+                pc.assign_all(name, value=float(op[2]))
+            except ValueError:
+                raised = True
+        elif op[0] == "updall":
+            lean_ops.append(["updall"])
+            try:
+                pc.update_intermediate_values()
+            except ValueError:
+                raised = True
         elif op[0] == "enter":
             cm = pc.updates_postponed()
             cm.__enter__()
